@@ -22,6 +22,7 @@ from multiprocessing.queues import (
 from multiprocessing.context import assert_spawning
 
 from .reduction import dumps
+from .. import _verif
 
 
 __all__ = ["Queue", "SimpleQueue", "Full"]
@@ -233,4 +234,6 @@ class SimpleQueue(mp_SimpleQueue):
             self._writer.send_bytes(obj)
         else:
             with self._wlock:
+                if _verif.ENABLED:
+                    _verif.point("rq.locked")
                 self._writer.send_bytes(obj)
